@@ -55,7 +55,7 @@ def run(ctx):
         for dev, prop in (devs if ctx.thorough() else devs[ctx.seed % 3:ctx.seed % 3 + 1]):
             ctx.tlc_mc("MC_Container.tla", "Container_dev_%s.cfg" % dev, timeout=600,
                        expect_violation="violated", count=False)
-    nb = 300 if ctx.thorough() else 30
+    nb = 120 if ctx.thorough() else 30
     ctx.tlc_mc("MC_Container.tla", "Container_gen.cfg", timeout=900, simulate="num=%d" % nb,
                extra_args=["-depth", "41", "-seed", str(ctx.seed)], count=False, workers=1)
     bs = behaviours(ctx._last_out)[:nb]
